@@ -1162,6 +1162,36 @@ def install(eng):
     def _isclose(eng, a, b, atol=Fraction(1, 10**8), rtol=Fraction(1, 10**5)):
         return M.elementwise(eng, lambda x, y: T.compare("le", T.absv(T.sub(x, y)), T.add(atol, T.mul(rtol, T.absv(y)))), a, b, dtype="bool")
 
+    @model("numpy.average")
+    def _average(eng, a, axis=None, weights=None, **kw):
+        if kw:
+            raise Unsupported("numpy.average with returned=/keepdims=")
+        a = _asarray(eng, a)
+        if weights is None:
+            return reg["numpy.mean"].fn(eng, a, axis=axis) if "numpy.mean" in reg else M.binop(eng, ast.Div(), M.reduce_axis(eng, "sum", a, axis), M.size_of(a.shape) if axis is None else a.shape[axis % a.ndim])
+        w = _asarray(eng, weights)
+        if axis is None:
+            if w.ndim != a.ndim:
+                raise I.PyRaise("TypeError", ("Axis must be specified when shapes of a and weights differ.",))
+            num = M.reduce_axis(eng, "sum", M.binop(eng, ast.Mult(), a, w), None)
+            return M.binop(eng, ast.Div(), num, M.reduce_axis(eng, "sum", w, None))
+        if not isinstance(axis, int):
+            raise Unsupported("numpy.average over several axes")
+        ax = axis % a.ndim
+        if w.ndim == 1 and a.ndim > 1:
+            # 1-D weights along `axis`: broadcast them to that axis
+            wf = w.fn
+            wb = I.Arr(a.shape, lambda *i: wf(i[ax]), w.dtype)
+            if not M.dim_eq(w.shape[0], a.shape[ax]):
+                raise Unsupported("numpy.average: weights length not shown equal to the axis length")
+        elif w.ndim == a.ndim:
+            wb = w
+        else:
+            raise Unsupported("numpy.average: weights of this shape")
+        num = M.reduce_axis(eng, "sum", M.binop(eng, ast.Mult(), a, wb), ax)
+        den = M.reduce_axis(eng, "sum", w if w.ndim == 1 else wb, 0 if w.ndim == 1 else ax)
+        return M.binop(eng, ast.Div(), num, den)
+
     @model("numpy.allclose")
     def _allclose(eng, a, b, rtol=Fraction(1, 10**5), atol=Fraction(1, 10**8), equal_nan=False):
         c = _isclose(eng, a, b, atol=atol, rtol=rtol)
